@@ -941,4 +941,99 @@ theorem line_matches_own_host (kt : KeyTab) (hps : List (Bytes × Bytes)) (ktype
 example : Safe [104, 111, 115, 116] ∧ Safe [50, 50, 50, 50] := by
   constructor <;> (intro c hc; revert c; decide)
 
+/-! ## 6. where the code's decision is not the property's (known findings) -/
+
+/-- **O10(a), general**: ANY `@cert-authority` line that matches the host and lists key `k` makes the
+    callback accept `k` presented as a PLAIN host key (not revoked, addresses well-formed). -/
+theorem ca_line_accepted_as_host_key (db : DB) (now : Int) (address remote : Bytes) (key : Nat) (a : Addr)
+    (hrev : ∀ e ∈ db.revoked, e.1 ≠ key) (ha : effectiveAddr address remote = some a)
+    (l : Entry) (hl : l ∈ db.lines) (_hcert : l.cert = true) (hm : l.matcher.matches a = true)
+    (hk : l.key = key) :
+    db.checkHostKey now address remote (.plain key) = .ok :=
+  (decision db now address remote key).2 ⟨hrev, a, ha, l, hl, hm, hk⟩
+
+theorem checkAddrP_ok_iff (key : Nat) (a : Addr) (ls : List Entry) (want : List Nat) :
+    checkAddrP key a ls want = .ok ↔
+      ∃ l ∈ ls, l.cert = false ∧ l.matcher.matchesP a = true ∧ l.key = key := by
+  induction ls generalizing want with
+  | nil => simp [checkAddrP]
+  | cons l ls ih =>
+    simp only [checkAddrP]
+    by_cases hskip : (l.cert || !l.matcher.matchesP a) = true
+    · simp only [hskip, if_true, ih, List.mem_cons]
+      constructor
+      · rintro ⟨x, hx, h⟩; exact ⟨x, Or.inr hx, h⟩
+      · rintro ⟨x, rfl | hx, h1, h2, h3⟩
+        · simp [h1, h2] at hskip
+        · exact ⟨x, hx, h1, h2, h3⟩
+    · have hs : (l.cert || !l.matcher.matchesP a) = false := by simpa using hskip
+      have hc : l.cert = false := by
+        cases h : l.cert <;> simp [h] at hs ⊢
+      have hmm : l.matcher.matchesP a = true := by
+        cases h : l.matcher.matchesP a <;> simp [h, hc] at hs ⊢
+      simp only [hs, Bool.false_eq_true, if_false]
+      by_cases hk : l.key = key
+      · simp only [hk, beq_self_eq_true, if_true, true_iff]
+        exact ⟨l, by simp, hc, hmm, hk⟩
+      · have : (l.key == key) = false := by simpa using hk
+        simp only [this, Bool.false_eq_true, if_false, ih, List.mem_cons]
+        constructor
+        · rintro ⟨x, hx, h⟩; exact ⟨x, Or.inr hx, h⟩
+        · rintro ⟨x, rfl | hx, h1, h2, h3⟩
+          · exact absurd h3 hk
+          · exact ⟨x, hx, h1, h2, h3⟩
+
+/-- the property's reading accepts a plain key only through a line WITHOUT the `@cert-authority` marker -/
+theorem checkP_ok_needs_unmarked_line (db : DB) (address remote : Bytes) (key : Nat)
+    (h : db.checkP address remote key = .ok) :
+    ∃ l ∈ db.lines, l.cert = false ∧ l.key = key := by
+  simp only [DB.checkP] at h
+  split at h
+  · cases h
+  · split at h
+    · cases h
+    · split at h
+      · obtain ⟨l, hl, hc, _, hk⟩ := (checkAddrP_ok_iff _ _ _ _).1 h; exact ⟨l, hl, hc, hk⟩
+      · split at h
+        · cases h
+        · obtain ⟨l, hl, hc, _, hk⟩ := (checkAddrP_ok_iff _ _ _ _).1 h; exact ⟨l, hl, hc, hk⟩
+
+/-- **O10(a), witness**: file `@cert-authority h <K>`; `K` presented as plain host key of `h:22` — the code
+    accepts, the property's reading answers "unknown key" -/
+theorem marker_gap :
+    let db : DB := ⟨[], [⟨1, true, .pats [⟨false, ⟨[104], port22⟩⟩], 7⟩]⟩
+    db.checkHostKey 0 [104, 58, 50, 50] [104, 58, 50, 50] (.plain 7) = .ok ∧
+    db.checkP [104, 58, 50, 50] [104, 58, 50, 50] 7 = .keyErr [] := by
+  decide
+
+theorem lower_id (w : Bytes) (h : ∀ c ∈ w, ¬ (65 ≤ c.toNat ∧ c.toNat ≤ 90)) : lower w = w := by
+  induction w with
+  | nil => rfl
+  | cons c cs ih =>
+    have hc := h c (by simp)
+    simp only [lower, List.map_cons, lowerByte, hc, if_false, List.cons.injEq, true_and]
+    exact ih (fun x hx => h x (List.mem_cons_of_mem _ hx))
+
+/-- no upper-case letter in a pattern list and in the host name: the case-insensitive reading and the
+    code agree — the divergence O10(b) needs an upper-case letter somewhere -/
+theorem matchesCI_eq_of_lower (m : Bool) (ps : List HostPattern) (a : Addr)
+    (hp : ∀ p ∈ ps, ∀ c ∈ p.addr.host, ¬ (65 ≤ c.toNat ∧ c.toNat ≤ 90))
+    (ha : ∀ c ∈ a.host, ¬ (65 ≤ c.toNat ∧ c.toNat ≤ 90)) :
+    matchPatternsCI m ps a = matchPatternsGo m ps a := by
+  induction ps generalizing m with
+  | nil => rfl
+  | cons p ps ih =>
+    have e : p.matchesCI a = p.matches a := by
+      simp only [HostPattern.matchesCI, HostPattern.matches, lower_id _ (hp p (by simp)), lower_id _ ha]
+    simp only [matchPatternsCI, matchPatternsGo, e, ih _ (fun q hq => hp q (List.mem_cons_of_mem _ hq))]
+
+/-- **O10(b), witnesses**: pattern `H` vs host `h` (code: no match; OpenSSH: match), and the negated form
+    `*,!h` queried as `H` (code: match, i.e. accepted; OpenSSH: excluded) -/
+theorem case_gap :
+    (Matcher.pats [⟨false, ⟨[72], port22⟩⟩]).matches ⟨[104], port22⟩ = false ∧
+    (Matcher.pats [⟨false, ⟨[72], port22⟩⟩]).matchesP ⟨[104], port22⟩ = true ∧
+    (Matcher.pats [⟨false, ⟨[cSTAR], port22⟩⟩, ⟨true, ⟨[104], port22⟩⟩]).matches ⟨[72], port22⟩ = true ∧
+    (Matcher.pats [⟨false, ⟨[cSTAR], port22⟩⟩, ⟨true, ⟨[104], port22⟩⟩]).matchesP ⟨[72], port22⟩ = false := by
+  decide
+
 end XC.C42
